@@ -16,6 +16,7 @@ type T implements Node { id: ID u: Node n(a: Int): Node t: T x: Int }
 type A { k: Int o: T }
 type B { k: String o: T }
 union AB = A | B
+type Subscription { tick: Int id: ID u: Node }
 `
 
 // Adversarial returns, for a size k ≥ 1, one document of each family together with the schema it
@@ -105,6 +106,40 @@ func Adversarial(size int) []AdvCase {
 		}
 		add("fragment-cycle-exclusive-parents", "{ ab { ... on A { o { ...FX } } ... on B { o { "+deep+" } } } }\nfragment FX on T { t { t { ...FX } } }\n")
 		add("fragment-cycle-exclusive-parents-2", "{ ab { ... on A { k o { t { ...FY } } } ... on B { k: x o { t { t { ...FY } } } } } }\nfragment FY on T { t { t { ...FY x } } u { ... on T { t { ...FY } } } x }\n")
+	}
+
+	// the fan-out below a subscription root (SingleFieldSubscriptions collects the root fields through
+	// fragments), acyclic and closed into a cycle
+	for _, cyc := range []bool{false, true} {
+		sb.Reset()
+		sb.WriteString("subscription S { tick ...F0 }\n")
+		for i := 0; i < k; i++ {
+			sb.WriteString("fragment F" + itoa(i) + " on Subscription { ...F" + itoa(i+1) + " ...F" + itoa(i+1) + " }\n")
+		}
+		if cyc {
+			sb.WriteString("fragment F" + itoa(k) + " on Subscription { tick ...F0 }\n")
+			add("subscription-fanout-cycle", sb.String())
+		} else {
+			sb.WriteString("fragment F" + itoa(k) + " on Subscription { tick }\n")
+			add("subscription-fanout", sb.String())
+		}
+	}
+
+	// two fragments that reach each other through a field are compared twice: below same-named fields of
+	// two different OBJECT types (mutually exclusive) and side by side (not exclusive), in both orders;
+	// what the first comparison records must not keep the second from terminating
+	{
+		pad := ""
+		for i := 0; i < k%5; i++ {
+			pad += " t {"
+		}
+		cl := strings.Repeat(" }", k%5)
+		fr := "fragment FA on T { x" + pad + " t { ...FB }" + cl + " }\nfragment FB on T { x" + pad + " t { ...FA }" + cl + " }\n"
+		excl := "ab { ... on A { o { ...FA } } ... on B { o { ...FB } } }"
+		side := "t { ...FA ...FB }"
+		add("fragment-pair-exclusive-then-shared", "{ "+excl+" "+side+" }\n"+fr)
+		add("fragment-pair-shared-then-exclusive", "{ "+side+" "+excl+" }\n"+fr)
+		add("fragment-pair-exclusive-then-shared-nested", "{ ab { ... on A { o { t { ...FA } } } ... on B { o { t { ...FB } } } } u { ... on T { ...FA ...FB t { ...FB ...FA } } } }\n"+fr)
 	}
 
 	sb.Reset()
